@@ -3,6 +3,8 @@ package bgp
 import (
 	"encoding/json"
 	"testing"
+
+	"verif.local/simrt"
 )
 
 // clonePlan deep-copies a plan through JSON (plans are plain data).
@@ -23,7 +25,23 @@ func ShrinkPlan(t *testing.T, def propDef, plan *Plan, assertion string, budget 
 			return false
 		}
 		runs++
-		res := runOne(t, def, clonePlan(p), false)
+		var res *RunResult
+		if simrt.RaceMode {
+			// the interleaving is partly the Go runtime's: a candidate gets three attempts
+			for k := 0; k < 3; k++ {
+				if res = runInChild(clonePlan(p)); res == nil {
+					continue
+				}
+				for _, v := range res.Violations {
+					if v.Assertion == assertion {
+						return true
+					}
+				}
+			}
+			return false
+		} else {
+			res = runOne(t, def, clonePlan(p), false)
+		}
 		for _, v := range res.Violations {
 			if v.Assertion == assertion {
 				return true
